@@ -476,6 +476,13 @@ theorem with_family_fixed :
       (Pfst.Gen.C08Families.table.filter (fun r => Pfst.SharedDelims.fixWithItems r.1)).map (·.1) = ["AsyncWith", "With"] := by
   decide
 
+/-- **`AnnAssign.simple` after a put into the target is what CPython gives the new source**: 1 exactly for a bare,
+unparenthesised name — any number of parentheses and any non-Name target give 0. -/
+theorem annSimple_correct (isName : Bool) (npars : Nat) :
+    Pfst.SharedDelims.annSimple isName npars = Pfst.SharedDelims.annSimpleSpec isName npars := by
+  unfold Pfst.SharedDelims.annSimple Pfst.SharedDelims.annSimpleSpec
+  cases isName <;> cases npars <;> simp
+
 /-! ### non-vacuity -/
 
 /-- a classification meeting the hypotheses: ASCII 0x20..0x7e printable, everything else not -/
@@ -507,6 +514,7 @@ example : commentPut k0 true "".toList "c".toList = .valueError := by decide
 example : commentPut k0 false "".toList "a\rb".toList = .valueError := by decide
 example : commentPut k0 true "  # old".toList "# a\x00b".toList = .valueError := by decide
 example : ("  # old".toList).all lineOK = true ∧ commentPut k0 false "  # old".toList "a\x0cb".toList = .ok "  # a\x0cb".toList := by decide
+example : Pfst.SharedDelims.annSimple true 1 = 0 ∧ Pfst.SharedDelims.annSimple true 0 = 1 ∧ Pfst.SharedDelims.annSimple false 0 = 0 := by decide
 example : elifDecision ⟨false, true, true, true, true, false, 1, true⟩ = .keep := by decide      -- first of several: no elif
 example : elifDecision ⟨false, false, true, true, true, false, 1, true⟩ = .toElif := by decide
 example : elifDecision ⟨false, false, true, true, false, true, 1, true⟩ = .toElse := by decide
